@@ -5,42 +5,127 @@ package props
 // with the implementation (no bytecode, no program counters, no snapshots).
 
 import (
+	"strconv"
 	"strings"
 )
 
-type Env struct {
-	parent *Env
+// binding is a persistent list of variable bindings (newest first).
+type binding struct {
+	parent *binding
 	name   string
-	val    string
+	str    string
+	nested map[string]any // non-nil: the result of a named loop
 }
 
-func (e *Env) Get(name string) (string, bool) {
-	for p := e; p != nil; p = p.parent {
-		if p.name == name {
-			return p.val, true
+// iterNode is a persistent list of the completed iterations of a named loop.
+type iterNode struct {
+	parent *iterNode
+	idx    int
+	b      *binding
+}
+
+// frame is an open named loop. Captures completed while a frame is open are
+// stored in its current iteration, not in the global environment.
+type frame struct {
+	parent *frame
+	name   string
+	iter   int
+	done   *iterNode
+	cur    *binding
+}
+
+// Env is immutable and handed from continuation to continuation, so a binding made
+// on an abandoned path disappears with it by construction.
+type Env struct {
+	vars *binding
+	fr   *frame
+}
+
+// Get looks a name up for a back-reference: only the global environment is
+// visible (what a capture stored inside a named loop means to a back-reference is
+// undocumented; the generators never refer to such captures).
+func (e Env) Get(name string) (string, bool) {
+	for p := e.vars; p != nil; p = p.parent {
+		if p.name == name && p.nested == nil {
+			return p.str, true
 		}
 	}
 	return "", false
 }
 
-func (e *Env) Map() map[string]string {
-	m := map[string]string{}
-	var rec func(p *Env)
-	rec = func(p *Env) {
+func (e Env) bound(name string) bool {
+	list := e.vars
+	if e.fr != nil {
+		list = e.fr.cur
+	}
+	for p := list; p != nil; p = p.parent {
+		if p.name == name {
+			return true
+		}
+	}
+	return false
+}
+
+func (e Env) bind(b *binding) Env {
+	if e.fr != nil {
+		f := *e.fr
+		b.parent = f.cur
+		f.cur = b
+		return Env{vars: e.vars, fr: &f}
+	}
+	b.parent = e.vars
+	return Env{vars: b, fr: nil}
+}
+
+func bindingsToMaps(b *binding) (flat map[string]string, nested map[string]any) {
+	flat, nested = map[string]string{}, map[string]any{}
+	var rec func(p *binding)
+	rec = func(p *binding) {
 		if p == nil {
 			return
 		}
 		rec(p.parent)
-		m[p.name] = p.val
+		if p.nested != nil {
+			delete(flat, p.name)
+			nested[p.name] = p.nested
+		} else {
+			delete(nested, p.name)
+			flat[p.name] = p.str
+		}
 	}
-	rec(e)
-	return m
+	rec(b)
+	return
+}
+
+func bindingsToAny(b *binding) map[string]any {
+	flat, nested := bindingsToMaps(b)
+	out := map[string]any{}
+	for k, v := range flat {
+		out[k] = v
+	}
+	for k, v := range nested {
+		out[k] = v
+	}
+	return out
+}
+
+// Map returns the flat string variables of the global environment.
+func (e Env) Map() map[string]string {
+	flat, _ := bindingsToMaps(e.vars)
+	return flat
+}
+
+// Nested returns the named-loop results of the global environment.
+func (e Env) Nested() map[string]any {
+	_, nested := bindingsToMaps(e.vars)
+	return nested
 }
 
 type Span struct {
-	Start int               `json:"start"`
-	End   int               `json:"end"`
-	Vars  map[string]string `json:"vars,omitempty"`
+	Start  int               `json:"start"`
+	End    int               `json:"end"`
+	Vars   map[string]string `json:"vars,omitempty"`
+	Nested map[string]any    `json:"nested,omitempty"` // named loops: name -> iteration -> bindings
 }
 
 type ModelBudget struct{}
@@ -60,7 +145,7 @@ type Model struct {
 	ProcBudget   int
 }
 
-type cont func(pos int, e *Env) bool
+type cont func(pos int, e Env) bool
 
 // trackUnbound (C14): set while a model evaluation should report references that
 // were evaluated before their group was bound.
@@ -173,7 +258,7 @@ func (m *Model) tick() {
 	}
 }
 
-func (m *Model) match(n *Node, pos int, e *Env, k cont) bool {
+func (m *Model) match(n *Node, pos int, e Env, k cont) bool {
 	m.tick()
 	t := m.text
 	switch n.K {
@@ -240,11 +325,11 @@ func (m *Model) match(n *Node, pos int, e *Env, k cont) bool {
 		}
 		return false
 	case KCap:
-		return m.match(n.Body, pos, e, func(p2 int, e2 *Env) bool {
-			if _, bound := e2.Get(n.S); bound {
+		return m.match(n.Body, pos, e, func(p2 int, e2 Env) bool {
+			if e2.bound(n.S) {
 				m.Rebinds++
 			}
-			if k(p2, &Env{e2, n.S, t[pos:p2]}) {
+			if k(p2, e2.bind(&binding{name: n.S, str: t[pos:p2]})) {
 				return true
 			}
 			m.AbandonedCap++
@@ -267,7 +352,7 @@ func (m *Model) match(n *Node, pos int, e *Env, k cont) bool {
 		return m.seq(sub.Kids, 0, pos, e, k)
 	case KGlobal:
 		g := m.globals[n.S]
-		return m.seq(g.Body, 0, pos, e, func(p2 int, e2 *Env) bool {
+		return m.seq(g.Body, 0, pos, e, func(p2 int, e2 Env) bool {
 			if len(g.Pred) > 0 {
 				if !m.pred(g.Pred, t[pos:p2]) {
 					m.Backtracks++
@@ -295,20 +380,57 @@ func (m *Model) pred(stmts []Stmt, sub string) bool {
 	return v.AsBool()
 }
 
-func (m *Model) seq(kids []*Node, i int, pos int, e *Env, k cont) bool {
+func (m *Model) seq(kids []*Node, i int, pos int, e Env, k cont) bool {
 	if i == len(kids) {
 		return k(pos, e)
 	}
-	return m.match(kids[i], pos, e, func(p2 int, e2 *Env) bool {
+	return m.match(kids[i], pos, e, func(p2 int, e2 Env) bool {
 		return m.seq(kids, i+1, p2, e2, k)
 	})
 }
 
-func (m *Model) loop(n *Node, i int, pos int, e *Env, k cont) bool {
+// loop is the entry of a loop: a named loop opens a frame and publishes its
+// result when it is left; the iterations themselves are run by loopIter.
+func (m *Model) loop(n *Node, i int, pos int, e Env, k cont) bool {
+	if n.Name == "" {
+		return m.loopIter(n, i, pos, e, k)
+	}
+	// entering a named loop: captures now go to its current iteration
+	e = Env{vars: e.vars, fr: &frame{parent: e.fr, name: n.Name}}
+	exit := func(p2 int, e2 Env) bool {
+		// leaving the loop: publish name -> {iteration -> bindings} in the enclosing scope
+		f := e2.fr
+		res := map[string]any{}
+		for it := f.done; it != nil; it = it.parent {
+			if it.b != nil {
+				res[strconv.Itoa(it.idx)] = bindingsToAny(it.b)
+			}
+		}
+		if f.cur != nil {
+			res[strconv.Itoa(f.iter)] = bindingsToAny(f.cur)
+		}
+		outer := Env{vars: e2.vars, fr: f.parent}
+		return k(p2, outer.bind(&binding{name: n.Name, nested: res}))
+	}
+	return m.loopIter(n, i, pos, e, exit)
+}
+
+func (m *Model) loopIter(n *Node, i int, pos int, e Env, k cont) bool {
 	m.tick()
+	next := func(e2 Env) Env {
+		if n.Name == "" {
+			return e2
+		}
+		// iteration boundary of a named loop
+		f := *e2.fr
+		f.done = &iterNode{parent: f.done, idx: f.iter, b: f.cur}
+		f.iter++
+		f.cur = nil
+		return Env{vars: e2.vars, fr: &f}
+	}
 	if i < n.Min {
-		return m.match(n.Body, pos, e, func(p2 int, e2 *Env) bool {
-			return m.loop(n, i+1, p2, e2, k)
+		return m.match(n.Body, pos, e, func(p2 int, e2 Env) bool {
+			return m.loopIter(n, i+1, p2, next(e2), k)
 		})
 	}
 	canMore := n.Max == -1 || i < n.Max
@@ -316,11 +438,11 @@ func (m *Model) loop(n *Node, i int, pos int, e *Env, k cont) bool {
 		if !canMore {
 			return false
 		}
-		return m.match(n.Body, pos, e, func(p2 int, e2 *Env) bool {
+		return m.match(n.Body, pos, e, func(p2 int, e2 Env) bool {
 			if p2 == pos {
 				return false // an extra iteration must consume
 			}
-			return m.loop(n, i+1, p2, e2, k)
+			return m.loopIter(n, i+1, p2, next(e2), k)
 		})
 	}
 	if n.Fewest {
@@ -389,14 +511,18 @@ func ModelFindAll(globals []Global, body []*Node, text string, budget int) (res 
 	var spans []Span
 	for pos < len(text) {
 		end := -1
-		var env *Env
-		m.seq(body, 0, pos, nil, func(p2 int, e *Env) bool {
+		var env Env
+		m.seq(body, 0, pos, Env{}, func(p2 int, e Env) bool {
 			end = p2
 			env = e
 			return true
 		})
 		if end > pos {
-			spans = append(spans, Span{pos, end, env.Map()})
+			sp := Span{Start: pos, End: end, Vars: env.Map()}
+			if nested := env.Nested(); len(nested) > 0 {
+				sp.Nested = nested
+			}
+			spans = append(spans, sp)
 			pos = end
 		} else {
 			pos++
